@@ -9,6 +9,13 @@ Model (`Sudachi/Model/Rewrite.lean`): `concatNodes`/`concatOovNodes` (`analysis/
 quantified parameters: every theorem below holds for *every* parser behaviour, every class table,
 every path, every setting, every amount of fuel and every intermediate loop state.
 
+The numeric loop exists in two code variants (`NVariant`): `cur`, the loop of the pinned tree, and
+`fix`, the repair of finding F2 (a COMMA/POINT error restarts the run only if the corresponding flag
+was still set).  The harness tells the driver which one the tree under test has.  Every theorem about
+`nloop`/`joinNumeric`/`rewriteAll` is stated for an arbitrary variant `v`, except the two that
+separate them: `numeric_rewrite_diverges_counterexample` (`cur`) and `numeric_rewrite_terminates`
+with its corollaries (`fix`).
+
 `Coarsens R p q` (Proofs/Rewrite.lean): `q` arises from `p` by replacing disjoint contiguous
 non-empty blocks by one node that `Spans` the block (same begin as the first node, same end as the
 last node, in characters and bytes; dictionary-side surface = concatenation) and satisfies the
@@ -18,8 +25,9 @@ nodes are kept identically and in place.
 
 Two clauses of the property are **false** for the code as it is; both are proved on concrete
 witnesses (`…_counterexample`) and reproduced on the implementation by the harness:
-a single numeral token is rebuilt (not "reported unchanged") when `enableNormalize` is on, and the
-numeric loop need not terminate (so no token list is reported at all).
+a single numeral token is rebuilt (not "reported unchanged") when `enableNormalize` is on (both
+variants), and the numeric loop of the variant `cur` need not terminate (so no token list is
+reported at all); the variant `fix` always terminates, within the driver's fuel.
 -/
 namespace C14
 open Rewrite
@@ -109,37 +117,37 @@ theorem join_katakana_coarsens (cfg : KCfg) (cat : List Nat) (fuel : Nat) (path 
     (q : List Node) (h : kloop cfg cat fuel path i = .ok q) : Coarsens (RK cfg) path q :=
   kloop_coarsens cfg cat fuel path i q h
 
-/-- Numeral joining, for every parser behaviour `P`, every amount of fuel and every loop state
+/-- Numeral joining, for both code variants, every parser behaviour `P`, every amount of fuel and every loop state
 (index, run start, both separator flags, accumulated characters — the index logic is irrelevant):
 a result is a coarsening of the state's path. -/
-theorem join_numeric_coarsens (cfg : NCfg) (cat : List Nat) (P : List Char → POut) (fuel : Nat)
-    (st : NState) (q : List Node) (h : nloop cfg cat P fuel st = .ok q) :
+theorem join_numeric_coarsens (v : NVariant) (cfg : NCfg) (cat : List Nat) (P : List Char → POut)
+    (fuel : Nat) (st : NState) (q : List Node) (h : nloop v cfg cat P fuel st = .ok q) :
     Coarsens (RN cfg) st.path q :=
-  nloop_coarsens cfg cat P fuel st q h
+  nloop_coarsens v cfg cat P fuel st q h
 
 /-- The configured stack, applied in order. -/
-theorem rewrite_stack_coarsens (cat : List Nat) (P : List Char → POut) (pls : List Plugin)
-    (path q : List Node) (h : rewriteAll cat P pls path = .ok q) :
+theorem rewrite_stack_coarsens (v : NVariant) (cat : List Nat) (P : List Char → POut)
+    (pls : List Plugin) (path q : List Node) (h : rewriteAll v cat P pls path = .ok q) :
     Coarsens (RS (prescribed pls)) path q :=
-  rewriteAll_coarsens cat P pls path q h
+  rewriteAll_coarsens v cat P pls path q h
 
 /-! ### what a coarsening means for the observer -/
 
 /-- Clause "token boundaries with the plugins are a subset of the boundaries without": every
 begin (end) of a rewritten token, in characters and bytes, is the begin (end) of an input token. -/
-theorem boundaries_subset (cat : List Nat) (P : List Char → POut) (pls : List Plugin)
-    (path q : List Node) (h : rewriteAll cat P pls path = .ok q) :
+theorem boundaries_subset (v : NVariant) (cat : List Nat) (P : List Char → POut) (pls : List Plugin)
+    (path q : List Node) (h : rewriteAll v cat P pls path = .ok q) :
     ∀ m ∈ q, (∃ n ∈ path, n.b = m.b ∧ n.bb = m.bb) ∧ (∃ n ∈ path, n.e = m.e ∧ n.eb = m.eb) :=
-  (rewriteAll_coarsens cat P pls path q h).boundaries
+  (rewriteAll_coarsens v cat P pls path q h).boundaries
 
 /-- Clause "never moved, split or dropped / preserve the text": the concatenation of the
 dictionary-side surfaces is unchanged, the path begins and ends where it did, and a path whose
 tokens touch (each begins where the previous one ends) is rewritten to such a path. -/
-theorem text_preserved (cat : List Nat) (P : List Char → POut) (pls : List Plugin)
-    (path q : List Node) (h : rewriteAll cat P pls path = .ok q) :
+theorem text_preserved (v : NVariant) (cat : List Nat) (P : List Char → POut) (pls : List Plugin)
+    (path q : List Node) (h : rewriteAll v cat P pls path = .ok q) :
     catSurface q = catSurface path ∧ firstB q = firstB path ∧ lastE q = lastE path ∧
       (Contig path → Contig q) := by
-  have hc := rewriteAll_coarsens cat P pls path q h
+  have hc := rewriteAll_coarsens v cat P pls path q h
   obtain ⟨h1, h2, h3⟩ := hc.summary
   exact ⟨h3.symm, h1.symm, h2.symm, hc.contig⟩
 
@@ -147,17 +155,17 @@ theorem text_preserved (cat : List Nat) (P : List Char → POut) (pls : List Plu
 other tokens unchanged", for the whole stack: the input path splits into consecutive blocks, one
 per output token; a block is either the output token itself (identical in every field) or a block
 which the output token spans, and then its POS is one the stack prescribes. -/
-theorem tokens_kept_or_merged (cat : List Nat) (P : List Char → POut) (pls : List Plugin)
-    (path q : List Node) (h : rewriteAll cat P pls path = .ok q) :
+theorem tokens_kept_or_merged (v : NVariant) (cat : List Nat) (P : List Char → POut) (pls : List Plugin)
+    (path q : List Node) (h : rewriteAll v cat P pls path = .ok q) :
     ∃ bs : List (List Node), bs.flatten = path ∧ Aligned (RS (prescribed pls)) bs q :=
-  (rewriteAll_coarsens cat P pls path q h).aligned
+  (rewriteAll_coarsens v cat P pls path q h).aligned
 
 /-- Numeral plugin alone: a merged token carries the numeral POS, which is the POS of the first
 token of its block, and has no word id. -/
-theorem numeric_merged_pos (cfg : NCfg) (cat : List Nat) (P : List Char → POut) (path q : List Node)
-    (h : joinNumeric cfg cat P path = .ok q) :
+theorem numeric_merged_pos (v : NVariant) (cfg : NCfg) (cat : List Nat) (P : List Char → POut)
+    (path q : List Node) (h : joinNumeric v cfg cat P path = .ok q) :
     ∃ bs : List (List Node), bs.flatten = path ∧ Aligned (RN cfg) bs q :=
-  (nloop_coarsens cfg cat P _ _ q h).aligned
+  (nloop_coarsens v cfg cat P _ _ q h).aligned
 
 /-- Katakana plugin alone: a merged token carries the configured OOV POS; its normalised and
 dictionary forms are its surface. -/
@@ -178,6 +186,45 @@ theorem join_katakana_total (cfg : KCfg) (cat : List Nat) (path : List Node) :
     joinKatakana cfg cat path ≠ .fuel :=
   kloop_terminates cfg cat _ path 0 (by simp [kFuel])
 
+/-- `rewrite_terminates` for the numeral loop AFTER the repair of F2 (variant `fix`), for every
+parser behaviour, class table, setting and every loop state that satisfies the loop invariant
+`NInv` (`-1 ≤ i`, `begin_idx ≤ i`; it holds initially and is preserved): `nMeasure N st + 1`
+iterations suffice, where `N` bounds the path length and
+`nMeasure N st = (len − run start)·3(N+2) + (armed flags)·(N+2) + (len − i)` is quadratic in the
+path length.  Each iteration decreases the measure: an accepted numeric node advances `i`; a
+COMMA/POINT restart keeps the run start and clears a flag that was set; any other failing `append`
+and every non-numeric node (which may re-arm the flags) moves the run start forward.
+Not true for `cur`: `numeric_rewrite_diverges_counterexample`. -/
+theorem numeric_rewrite_terminates (cfg : NCfg) (cat : List Nat) (P : List Char → POut) (N fuel : Nat)
+    (st : NState) (hinv : NInv st) (hN : st.path.length ≤ N) (hf : nMeasure N st < fuel) :
+    nloop .fix cfg cat P fuel st ≠ .fuel :=
+  nloop_fix_terminates cfg cat P N fuel st hinv hN hf
+
+/-- … in particular from the initial state, with any fuel from `nFuel path = 4(len+1)² + 8` on. -/
+theorem numeric_rewrite_terminates_init (cfg : NCfg) (cat : List Nat) (P : List Char → POut)
+    (path : List Node) (fuel : Nat) (hf : nFuel path ≤ fuel) :
+    nloop .fix cfg cat P fuel (nInit path) ≠ .fuel :=
+  nloop_fix_terminates cfg cat P path.length fuel _ (nInit_inv path) (Nat.le_refl _)
+    (Nat.lt_of_lt_of_le (nMeasure_init path) hf)
+
+/-- The driver's fuel is never exhausted for `fix`: the numeral plugin never answers `HANG`, … -/
+theorem join_numeric_total (cfg : NCfg) (cat : List Nat) (P : List Char → POut) (path : List Node) :
+    joinNumeric .fix cfg cat P path ≠ .fuel :=
+  joinNumeric_fix_ne_fuel cfg cat P path
+
+/-- … and neither does any configured stack of plugins. -/
+theorem rewrite_stack_total (cat : List Nat) (P : List Char → POut) (pls : List Plugin)
+    (path : List Node) : rewriteAll .fix cat P pls path ≠ .fuel :=
+  rewriteAll_fix_ne_fuel cat P pls path
+
+/-- The loop invariant assumed by `numeric_rewrite_terminates` holds initially and is preserved by
+every iteration of the repaired loop, which also never lengthens the path. -/
+theorem numeric_invariant (cfg : NCfg) (cat : List Nat) (P : List Char → POut) (path : List Node)
+    (st st' : NState) :
+    NInv (nInit path) ∧
+      (NInv st → nstep .fix cfg cat P st = .ok st' → NInv st' ∧ st'.path.length ≤ st.path.length) :=
+  ⟨nInit_inv path, fun hinv h => ⟨(nstep_fix_progress h hinv).1, (nstep_fix_progress h hinv).2.1⟩⟩
+
 /-! ### counterexamples: what the code as it is does *not* satisfy -/
 
 /-- lexicon row `7` (class NUMERIC) whose normalised form is `,` -/
@@ -192,18 +239,18 @@ def pComma : List Char → POut := fun _ => { n := 0, err := E_COMMA, done := fa
 def stuck : NState :=
   { path := [n7], i := -1, beginIdx := -1, comma := false, period := true, acc := [','] }
 
-/-- `rewrite_terminates` is FALSE for the numeral loop: on the one-token path `7 ⇒ ","` the loop
-returns to the same state for ever (no amount of fuel suffices), so no token list is produced.
-The full statement that would be wanted — `∀ path, ∃ fuel, nloop … fuel (nInit path) ≠ .fuel` —
-is refuted by this witness.  Reproduced on the implementation: directed cases 0–3 of the harness
-(`HANG`). -/
+/-- `rewrite_terminates` is FALSE for the numeral loop of the pinned tree (variant `cur`): on the
+one-token path `7 ⇒ ","` the loop returns to the same state for ever (no amount of fuel suffices),
+so no token list is produced.  The full statement that would be wanted —
+`∀ path, ∃ fuel, nloop .cur … fuel (nInit path) ≠ .fuel` — is refuted by this witness.  Reproduced on
+the unrepaired implementation: directed cases 0–3 of the harness (`HANG`). -/
 theorem numeric_rewrite_diverges_counterexample :
-    ∀ fuel, nloop { numPos := 1, enableNormalize := true } [NUMERIC] pComma fuel (nInit [n7]) = .fuel := by
-  have step0 : nstep { numPos := 1, enableNormalize := true } [NUMERIC] pComma (nInit [n7]) = .ok stuck := by
+    ∀ fuel, nloop .cur { numPos := 1, enableNormalize := true } [NUMERIC] pComma fuel (nInit [n7]) = .fuel := by
+  have step0 : nstep .cur { numPos := 1, enableNormalize := true } [NUMERIC] pComma (nInit [n7]) = .ok stuck := by
     decide
-  have step1 : nstep { numPos := 1, enableNormalize := true } [NUMERIC] pComma stuck = .ok stuck := by
+  have step1 : nstep .cur { numPos := 1, enableNormalize := true } [NUMERIC] pComma stuck = .ok stuck := by
     decide
-  have loop1 : ∀ fuel, nloop { numPos := 1, enableNormalize := true } [NUMERIC] pComma fuel stuck = .fuel := by
+  have loop1 : ∀ fuel, nloop .cur { numPos := 1, enableNormalize := true } [NUMERIC] pComma fuel stuck = .fuel := by
     intro fuel
     induction fuel with
     | zero => rfl
@@ -218,6 +265,13 @@ theorem numeric_rewrite_diverges_counterexample :
     unfold nloop
     rw [if_pos (by decide), step0]
     exact loop1 f
+
+/-- The same witness after the repair (variant `fix`): the second COMMA error finds the flag already
+clear, the run is closed instead of restarted, and the path is returned as it is — the node `7 ⇒ ","`
+is not a numeral the parser accepts, so nothing is joined. -/
+theorem numeric_rewrite_witness_after_fix :
+    joinNumeric .fix { numPos := 1, enableNormalize := true } [NUMERIC] pComma [n7] = .ok [n7] := by
+  decide
 
 /-- token `一` (class KANJI|KANJINUMERIC, numeral POS 1, word id 16, normalised form = surface) -/
 def nIchi : Node :=
@@ -235,21 +289,21 @@ def mIchi : Node :=
 /-- Clause "tokens that are not part of a merge are reported unchanged" is FALSE with
 `enableNormalize = true`: the single token `一`, merged with no neighbour, comes back with the same
 range but another word id (invalid ⇒ reported as OOV), another normalised form and without its
-synonym ids. -/
-theorem single_numeral_rebuilt_counterexample :
-    joinNumeric { numPos := 1, enableNormalize := true } [260] pIchi [nIchi] = .ok [mIchi] ∧
+synonym ids.  The repair of F2 does not touch this (it holds for both variants). -/
+theorem single_numeral_rebuilt_counterexample (v : NVariant) :
+    joinNumeric v { numPos := 1, enableNormalize := true } [260] pIchi [nIchi] = .ok [mIchi] ∧
       mIchi ≠ nIchi ∧ (mIchi.b, mIchi.e, mIchi.bb, mIchi.eb) = (nIchi.b, nIchi.e, nIchi.bb, nIchi.eb) ∧
       isOov mIchi = true ∧ isOov nIchi = false := by
-  decide
+  cases v <;> decide
 
 /-- … and TRUE with `enableNormalize = false` (and always for the katakana plugin): every replaced
 block has at least two tokens (`RN`, `RK` carry `2 ≤ blk.length`), so a token that is not merged
 with a neighbour is kept identically.  Instance: a one-token path is returned as it is, for every
 parser and every class table. -/
-theorem single_token_unchanged_without_normalize (numPos : Nat) (cat : List Nat)
+theorem single_token_unchanged_without_normalize (v : NVariant) (numPos : Nat) (cat : List Nat)
     (P : List Char → POut) (n : Node) (q : List Node)
-    (h : joinNumeric { numPos := numPos, enableNormalize := false } cat P [n] = .ok q) : q = [n] := by
-  have hc := nloop_coarsens _ cat P _ _ q h
+    (h : joinNumeric v { numPos := numPos, enableNormalize := false } cat P [n] = .ok q) : q = [n] := by
+  have hc := nloop_coarsens v _ cat P _ _ q h
   simp only [nInit] at hc
   generalize hp : [n] = p at hc
   cases hc with
@@ -278,8 +332,46 @@ def pAll : List Char → POut := fun s => { n := s.length, err := 0, done := tru
 /-- the hypotheses of `join_numeric_coarsens`, `boundaries_subset`, `text_preserved` are satisfiable
 with a genuine merge: `1|2|あ` becomes `12|あ`, contiguous before and after. -/
 def m12 : Node := mergedNode dA dB [dA, dB] none
-example : joinNumeric { numPos := 1, enableNormalize := false } [16, 16, 64] pAll [dA, dB, dX] = .ok [m12, dX] ∧
-    m12.surface = ['1', '2'] ∧ (m12.b, m12.e) = (0, 2) ∧ m12.pos = 1 ∧ m12.e = dX.b := by decide
+example (v : NVariant) :
+    joinNumeric v { numPos := 1, enableNormalize := false } [16, 16, 64] pAll [dA, dB, dX] = .ok [m12, dX] ∧
+    m12.surface = ['1', '2'] ∧ (m12.b, m12.e) = (0, 2) ∧ m12.pos = 1 ∧ m12.e = dX.b := by
+  cases v <;> decide
+
+/-- the hypotheses of `numeric_rewrite_terminates` are satisfiable: the initial state of a
+three-token path satisfies the invariant, and its measure is below the driver's fuel -/
+example : NInv (nInit [dA, dB, dX]) ∧ (nInit [dA, dB, dX]).path.length ≤ 3 ∧
+    nMeasure 3 (nInit [dA, dB, dX]) < nFuel [dA, dB, dX] :=
+  ⟨nInit_inv _, Nat.le_refl _, nMeasure_init _⟩
+
+/-- … and so is a state in the middle of a run with one flag already cleared (`1|2|あ`, run started
+at node 0, index at node 1, `comma_as_digit` false) -/
+example : NInv { path := [dA, dB, dX], i := 1, beginIdx := 0, comma := false, period := true, acc := ['1', '2'] } := by
+  simp only [NInv]; omega
+
+/-- the restart that the repair keeps: on `1|0|,|,|2` (the second comma is rejected with COMMA while
+`comma_as_digit` is still set) both variants go back to the start of the run with the flag cleared,
+close the run `10` at the first comma and join it; the results are identical. -/
+def dZ : Node := { dA with b := 1, e := 2, bb := 1, eb := 2, wid := 6, tc := 9, surface := ['0'] }
+def cC1 : Node := { dA with b := 2, e := 3, bb := 2, eb := 3, wid := 7, tc := 12, pos := 3, surface := [','] }
+def cC2 : Node := { cC1 with b := 3, e := 4, bb := 3, eb := 4, tc := 15 }
+def dTwo : Node := { dA with b := 4, e := 5, bb := 4, eb := 5, wid := 4, tc := 19, surface := ['2'] }
+/-- the real parser's outcomes on the strings this path makes the plugin ask for -/
+def pTen : List Char → POut := fun s =>
+  if s = ['1'] then { n := 1, err := 0, done := true, norm := ['1'] }
+  else if s = ['1', '0'] then { n := 2, err := 0, done := true, norm := ['1', '0'] }
+  else if s = ['1', '0', ','] then { n := 3, err := E_COMMA, done := false, norm := [] }
+  else if s = ['1', '0', ',', ','] then { n := 3, err := E_COMMA, done := false, norm := [] }
+  else if s = ['2'] then { n := 1, err := 0, done := true, norm := ['2'] }
+  else missing
+def sRestart : NState :=
+  { path := [dA, dZ, cC1, cC2, dTwo], i := 2, beginIdx := 0, comma := true, period := true,
+    acc := ['1', '0', ','] }
+example (v : NVariant) :
+    nstep v { numPos := 1, enableNormalize := false } [16, 16, 64, 64, 16] pTen sRestart =
+      .ok { sRestart with i := -1, beginIdx := -1, comma := false, acc := ['1', '0', ',', ','] } ∧
+    joinNumeric v { numPos := 1, enableNormalize := false } [16, 16, 64, 64, 16] pTen
+      [dA, dZ, cC1, cC2, dTwo] = .ok [mergedNode dA dZ [dA, dZ] none, cC1, cC2, dTwo] := by
+  cases v <;> decide
 
 example : Contig [dA, dB, dX] ∧ Contig [m12, dX] := ⟨⟨rfl, rfl, rfl, rfl, trivial⟩, ⟨rfl, rfl, trivial⟩⟩
 
@@ -299,9 +391,10 @@ example : joinKatakana { oovPos := 5, minLength := 0 } [128, 128] [kA, kI] = .ok
     [kA, kI].length - 0 < kFuel [kA, kI] := by decide
 
 /-- a stack of both plugins on a mixed path: `1|2|ア|イ` becomes `12|アイ` -/
-example : rewriteAll [16, 16, 128, 128] pAll
+example (v : NVariant) : rewriteAll v [16, 16, 128, 128] pAll
       [.numeric { numPos := 1, enableNormalize := true }, .katakana { oovPos := 5, minLength := 0 }]
       [dA, dB, kA2, kI2] =
-    .ok [mergedNode dA dB [dA, dB] (some ['1', '2']), mergedOovNode kA2 kI2 [kA2, kI2] 5] := by decide
+    .ok [mergedNode dA dB [dA, dB] (some ['1', '2']), mergedOovNode kA2 kI2 [kA2, kI2] 5] := by
+  cases v <;> decide
 
 end C14
